@@ -419,6 +419,35 @@ def run_shard(spec, tier, seed, budget_s):
                 run_input(sh, body, 'refshape', feats={'form': 'tableless'})
     if i == 6:
         growth_probe(sh)
+    if i == 7:
+        # settings that belong to another kind of element, keys spelled like attributes of the model classes, big counts
+        T2 = 'Table t {\n  id int\n  x int\n}\n'
+        foreign = ['color: #79AD51', 'headercolor: #fff', 'pk', 'unique', 'type: hash', 'delete: cascade', 'update: no action', 'increment', 'not null',
+                   'default: 1', "note: 'n'", "name: 'n'", 'ref: > t.id', 'null', 'primary key']
+        for fs in foreign:
+            for doc_ in (T2 + f'Ref: t.id > t.x [{fs}]\n', T2 + f'Ref r {{\n  t.id > t.x [{fs}, delete: cascade]\n}}\n', f'Table t [{fs}] {{\n  id int\n}}\n',
+                         f'Table t {{\n  id int [{fs}]\n}}\n', f'Table t {{\n  id int\n  indexes {{\n    id [{fs}]\n  }}\n}}\n', f'Enum e {{\n  a [{fs}]\n}}\n',
+                         T2 + f'TableGroup g [{fs}] {{\n  t\n}}\n', f'Table t {{\n  id int [ref: > t.id, {fs}]\n}}\n'):
+                run_input(sh, doc_, 'foreign-setting', props=False)
+                run_input(sh, doc_, 'foreign-setting', props=True)
+        attrs = ['items', 'name', 'note', 'comment', 'database', 'dbml', 'sql', 'properties', 'table', 'type', 'columns', 'indexes', 'schema', 'alias',
+                 '__dict__', '__class__', 'self', 'parent', 'text', 'refs', 'tables', 'project']
+        for a_ in attrs:
+            for q_ in (a_, f'"{a_}"'):
+                run_input(sh, f"Project p {{\n  {q_}: '42'\n  other: 'v'\n}}\n" + T2, 'attribute-like-key')
+                run_input(sh, f"Table t {{\n  id int [{q_}: 'v']\n  {q_}: 'w'\n}}\n", 'attribute-like-key', props=True)
+        for n_ in (50, 200, 1000):
+            cols = ''.join(f'  c{j} int\n' for j in range(n_))
+            subj = ', '.join(f'c{j}' for j in range(n_))
+            run_input(sh, f'Table t {{\n{cols}  indexes {{\n    ({subj})\n    ({subj}) [pk]\n  }}\n}}\n', 'count', feats={'n': n_})
+            run_input(sh, f'Table t {{\n{cols}}}\nTable u {{\n{cols}}}\nRef: t.({subj}) > u.({subj})\n', 'count', feats={'n': n_})
+            run_input(sh, 'Enum e {\n' + ''.join(f'  i{j}\n' for j in range(n_ * 5)) + '}\n', 'count', feats={'n': n_})
+            run_input(sh, 'Table t {\n  id int [' + ', '.join(['pk', 'unique', 'not null', "note: 'n'"] * (n_ // 4)) + ']\n}\n', 'count', feats={'n': n_})
+            run_input(sh, 'Table t {\n  id int [' + ', '.join(f"k{j}: 'v'" for j in range(n_)) + ']\n}\n', 'count', props=True, feats={'n': n_})
+            run_input(sh, T2 + 'TableGroup g {\n' + '  t\n' * 1 + '}\n' + ''.join(f'Table t{j} {{\n  id int [ref: > t.id]\n}}\n' for j in range(n_)), 'count', feats={'n': n_})
+            run_input(sh, 'Project p {\n' + ''.join(f"  k{j}: 'v{j}'\n" for j in range(n_)) + '}\n' + T2, 'count', feats={'n': n_})
+            run_input(sh, "Table t {\n  id int [note: '" + 'x' * (n_ * 1000) + "']\n}\n", 'count', feats={'n': n_})
+            run_input(sh, 'Table t {\n  id ' + 'a.' * 1 + 'b' + '(' + ','.join(['1'] * n_) + ')\n}\n', 'count', feats={'n': n_})
     # hostile substitution
     k = 0
     target = {'quick': 150, 'thorough': 6000}[tier]
